@@ -317,4 +317,11 @@ WCS_MENU = [
     {'t': 'wcs', 'ctype': ['RA---TAN', 'DEC--TAN'], 'crval': [266.4, -29.0],
      'crpix': [1.0, 1.0], 'cdelt': [0.0005, 0.0005], 'rot': -45.0,
      'radesys': 'FK5', 'equinox': 2000.0},
+    # a distorted image (SIP), and one that knows its own size and bounds
+    {'t': 'wcs', 'ctype': ['RA---TAN-SIP', 'DEC--TAN-SIP'],
+     'crval': [10.0, 20.0], 'crpix': [12.0, 9.0], 'cdelt': [-0.001, 0.001],
+     'sip': True},
+    {'t': 'wcs', 'ctype': ['RA---TAN', 'DEC--TAN'], 'crval': [150.0, 2.2],
+     'crpix': [25.0, 20.0], 'cdelt': [-0.0005, 0.0005], 'rot': 10.0,
+     'pixel_shape': [50, 40], 'pixel_bounds': [[-0.5, 49.5], [-0.5, 39.5]]},
 ]
